@@ -3,7 +3,7 @@
 // real RSA decrypter / BLS keys, the real ekm key manager and QBFT decided store, and a recording
 // task executor.
 //
-//	hx-events gen -seed S -n N [-dupid]   C11: random histories of all eight event kinds (valid and
+//	hx-events gen -seed S -n N [-dupid=false] C11: random histories of all eight event kinds (valid and
 //	                                      malformed), random batching, restarts, metadata updates
 //	hx-events crash -seed S -n N          C12: N base histories; for every block and every write call k
 //	                                      of its processing a case that kills / fails the node there,
@@ -593,7 +593,7 @@ func main() {
 	fs := flag.NewFlagSet(mode, flag.ExitOnError)
 	seed := fs.Uint64("seed", 1, "seed")
 	num := fs.Int("n", 100, "number of cases / base histories")
-	dupid := fs.Bool("dupid", false, "allow two OperatorAdded with the same id in one block")
+	dupid := fs.Bool("dupid", true, "allow two OperatorAdded with the same id in one block (finding F10, fixed by cf04b819e)")
 	maxk := fs.Int("maxcases", 0, "crash: stop after this many cases (0 = no limit)")
 	_ = fs.Parse(os.Args[2:])
 	if pf := os.Getenv("HX_PROF"); pf != "" {
